@@ -676,13 +676,15 @@ func (x Enum) String() string {
 }
 
 func (x Enum) Compare(b Comparable) int {
-	y := b.Value().(Enum).Id
-	if x.Id < y {
+	y := b.Value().(Enum)
+	if x.Id < y.Id {
 		return -1
-	} else if x.Id > y {
+	} else if x.Id > y.Id {
 		return 1
 	}
-	return 0
+	// enums of different enumerations (members of a union) can share a value
+	// and are still different values
+	return strings.Compare(x.Label, y.Label)
 }
 
 func (x Enum) Value() interface{} {
